@@ -267,8 +267,8 @@ pub const SMALL: [usize; 5] = [0, 1, 2, 3, 100];
 
 fn pick_width(rng: &mut Rng, mix: u32) -> usize {
     match mix {
-        0 => 2,
-        1 => *rng.pick(&[2, 2, 2, 3]),
+        0 => *rng.pick(&[2, 2, 2, 2, 3]),
+        1 => *rng.pick(&[2, 2, 3, 3]),
         2 => *rng.pick(&[2, 2, 3, 4]),
         _ => *rng.pick(&[2, 4, 4, 3]),
     }
@@ -492,6 +492,62 @@ pub fn gen_two_spaces(rng: &mut Rng) -> Dag {
         nodes[0].push(Item::Link(4, w));
     }
     Dag { nodes }
+}
+
+/// TWIN objects: siblings whose BYTES coincide but whose offset records differ (width and/or position of the
+/// offset to the same child; the filler next to the narrower offset repeats the 0xff placeholder), plus twins
+/// that differ only in the target. ObjectStore must keep them apart: content = bytes AND offset records.
+pub fn gen_twins(rng: &mut Rng) -> Dag {
+    let mut nodes: Vec<Vec<Item>> = vec![vec![Item::Lit(vec![1])]];
+    let n_children = 1 + rng.below(2) as usize;
+    let child0 = 1;
+    for c in 0..n_children {
+        nodes.push(body(Some(60 + c as u8), 0x30 + c as u8, *rng.pick(&[1usize, 2, 5, 100])));
+    }
+    let groups = 1 + rng.below(3) as usize;
+    for gi in 0..groups {
+        let c = child0 + rng.below(n_children as u64) as usize;
+        let pre: Vec<u8> = if rng.chance(1, 2) { vec![] } else { vec![0xA0 + gi as u8; 1 + rng.below(3) as usize] };
+        let post: Vec<u8> = if rng.chance(1, 2) { vec![] } else { vec![0xB0 + gi as u8; 1 + rng.below(3) as usize] };
+        let mk = |mid: Vec<Item>| -> Vec<Item> {
+            let mut v = vec![];
+            if !pre.is_empty() { v.push(Item::Lit(pre.clone())); }
+            v.extend(mid);
+            if !post.is_empty() { v.push(Item::Lit(post.clone())); }
+            v
+        };
+        let ff = |n: usize| Item::Lit(vec![0xff; n]);
+        let mut variants: Vec<Vec<Item>> = match rng.below(4) {
+            // same 4 placeholder bytes: offset16 + ff ff / offset24 + ff / offset32 / ff ff + offset16 / ff + offset24
+            0 => vec![mk(vec![Item::Link(2, c), ff(2)]), mk(vec![Item::Link(3, c), ff(1)]), mk(vec![Item::Link(4, c)]),
+                      mk(vec![ff(2), Item::Link(2, c)]), mk(vec![ff(1), Item::Link(3, c)])],
+            // same 3 bytes
+            1 => vec![mk(vec![Item::Link(2, c), ff(1)]), mk(vec![Item::Link(3, c)]), mk(vec![ff(1), Item::Link(2, c)])],
+            // two offsets: 16+16 vs 32 vs 16+ff ff vs 24+ff
+            2 => vec![mk(vec![Item::Link(2, c), Item::Link(2, c)]), mk(vec![Item::Link(4, c)]), mk(vec![Item::Link(2, c), ff(2)]), mk(vec![Item::Link(3, c), ff(1)])],
+            // same offset records shape, different target (when there are two children) or identical twins (must merge)
+            _ => {
+                let c2 = child0 + (c - child0 + 1) % n_children;
+                vec![mk(vec![Item::Link(2, c)]), mk(vec![Item::Link(2, c2)]), mk(vec![Item::Link(2, c)])]
+            }
+        };
+        rng.shuffle(&mut variants);
+        let keep = 2 + rng.below((variants.len() - 1) as u64) as usize;
+        for v in variants.into_iter().take(keep) {
+            let idx = nodes.len();
+            nodes.push(v);
+            let w = *rng.pick(&[2usize, 2, 3, 4]);
+            nodes[0].push(Item::Link(w, idx));
+        }
+    }
+    // children must come after their parents in index order: renumber (children were created first)
+    let n = nodes.len();
+    let map = |i: usize| -> usize { if i == 0 { 0 } else if i <= n_children { n - n_children + (i - 1) } else { i - n_children } };
+    let mut out = vec![vec![]; n];
+    for (i, items) in nodes.into_iter().enumerate() {
+        out[map(i)] = items.into_iter().map(|it| match it { Item::Link(w, c) => Item::Link(w, map(c)), x => x }).collect();
+    }
+    Dag { nodes: out }
 }
 
 /// ill-formed use of the API: offset widths outside {2,3,4}
@@ -1241,6 +1297,34 @@ fn main() {
     for _ in 0..12 * scale {
         let d = gen_two_spaces(&mut rng);
         run_case(&mut cx, &d, "two_spaces", true);
+    }
+    // 4c. twin objects: identical bytes, different offset records
+    for _ in 0..80 * scale {
+        let d = gen_twins(&mut rng);
+        run_case(&mut cx, &d, "twins", true);
+    }
+    // 4d. per-width boundary: a child at distance max-1, max, max+1 (and +-2) behind a 16- and a 24-bit offset, in Kahn
+    //     order and with a sibling that forbids reordering. 16 MiB objects: implementation-only (walker).
+    for w in [2usize, 3] {
+        let max: usize = if w == 2 { 65535 } else { 16_777_215 };
+        for delta in -2i64..=2 {
+            for variant in 0..3 {
+                // root: [label, L(wp)->pad, L(w)->child (, L16->child2)] ; Kahn order root, pad, child
+                let wp = *rng.pick(&[2usize, 3, 4]);
+                let root_size = 1 + wp + w + if variant == 2 { 2 } else { 0 };
+                let pad = (max as i64 + delta) as usize - root_size;
+                let mut root = vec![Item::Lit(vec![1]), Item::Link(wp, 1), Item::Link(w, 2)];
+                let mut nodes = vec![vec![], body(Some(2), 0x00, pad), body(Some(3), 0x33, *rng.pick(&[1usize, 4, 100]))];
+                match variant {
+                    1 => nodes[1].push(Item::Link(2, 2)), // pad also links the child: the child cannot move before pad
+                    2 => { root.push(Item::Link(2, 3)); nodes.push(body(Some(4), 0x44, 7)); }
+                    _ => {}
+                }
+                nodes[0] = root;
+                let d = Dag { nodes };
+                run_case(&mut cx, &d, if w == 2 { "width_boundary16" } else { "width_boundary24" }, w == 2);
+            }
+        }
     }
     // 5. API misuse widths (model correspondence only)
     for _ in 0..60 * scale {
